@@ -35,7 +35,17 @@ let fuel = nat_of_int 400000
 let run_line line =
     let i = String.index line '\t' in
     let inp = String.sub line 0 i and prog = String.sub line (i + 1) (String.length line - i - 1) in
-    if inp = "S" then begin
+    if inp = "N" then begin
+      (* N <lo> <hi> : normalize every code point of the range, one line each *)
+      (match String.split_on_char ' ' prog with
+       | [lo; hi] -> for c = int_of_string lo to int_of_string hi do print_endline (pstr (normalize (n_of_int c))) done
+       | _ -> print_endline "BADLINE")
+    end else if inp = "E" then begin
+      print_endline (String.concat "" (List.map (fun d -> BZ.to_string (bz_of_z d)) (encode (z_of_bz (BZ.of_string prog)))))
+    end else if inp = "D" then begin
+      let ds = List.init (String.length prog) (fun i -> z_of_bz (BZ.of_int (Char.code prog.[i] - 48))) in
+      print_endline (BZ.to_string (bz_of_z (decode ds)))
+    end else if inp = "S" then begin
       toks := List.filter (fun s -> s <> "") (String.split_on_char ' ' prog);
       (match agree (nat_of_int 2500) (term ()) [] with None -> print_endline "SKIP" | Some true -> print_endline "AGREE" | Some false -> print_endline "DIFFER")
     end else if inp = "ST" then begin
